@@ -51,10 +51,7 @@ func tableMaxN(L *LState) int {
 func tableRemove(L *LState) int {
 	tbl := L.CheckTable(1)
 	n := tbl.Len()
-	pos := n
-	if L.GetTop() != 1 {
-		pos = L.CheckInt(2)
-	}
+	pos := L.OptInt(2, n)
 	if pos < 1 || pos > n {
 		// position is outside bounds: nothing to remove, no result
 		return 0
